@@ -869,8 +869,17 @@ class C17(Property):
         "classRead_refines", "lazy_is_unobservable_reads",
         "pull_inv", "baseFrame_inv", "writeRef_inv", "writeBase_inv",
         "baseFrame_alias_breaks", "aliasInitial_fails",
+        # k1: the full step / history refinement (Proofs/C17FramesWrite, -Inst, -Step, -Hist)
+        "Ref_init", "Ref_pull", "writeBase_eq", "baseVal_sim", "Sim_setBase", "writeBase_refines",
+        "clear_refines", "tWrite_refines", "classWrite_refines", "classOp_refines",
+        "iread_cutF", "iWrite_refines", "instOp_refines", "instRead_refines", "instWrite_refines",
+        "Ref_extend", "Ref_addClass", "Ref_usingProps", "Ref_usingShared", "Ref_addInst",
+        "frames_step_refines", "frames_run_refines", "frames_run_refines_init",
+        "refGuard_of_histGuard", "getitem_visible", "frames_histories_partial", "frames_results_partial",
+        "step_read_state", "run_insert_reads", "lazy_is_unobservable", "frameHist_guard",
     )]
-    extra_proof_modules = ["Proofs.C17Frames"]
+    extra_proof_modules = ["Proofs.C17Frames", "Proofs.C17FramesWrite", "Proofs.C17FramesInst",
+                           "Proofs.C17FramesStep", "Proofs.C17FramesHist"]
     level_text = "proof (partial: sentence 1 over histories is refuted in full and proved for all histories outside the three open findings)"
     level_note = ("PROVED for every store/history of the model: non-interference (no_upward_leak, step_untouched, "
                   "no_upward_leak_history), reading = overlay of the frames of the chain (read_is_overlay_*, read_is_overlay_all), "
@@ -896,10 +905,26 @@ class C17(Property):
                   "lazy_is_unobservable_reads (any sequence of such reads in any order), Sim_init; invariants NoAlias / "
                   "InitialImmutable kept by read path, _base_frame and the frame mutation (pull_inv, baseFrame_inv, "
                   "writeRef_inv, writeBase_inv); the aliasing counter-model (seeded C17-base-frame-alias-initial) breaks the "
-                  "invariant and the correspondence on a concrete history (baseFrame_alias_breaks, aliasInitial_fails).  NOT "
-                  "proved: the step refinement for WRITES, instance views and class-creating commands of the mechanism model "
-                  "(frames_step_refines / frames_run_refines in full) — checked per case instead: the runner executes the "
-                  "mechanism model next to model A on every case (results and every view; spec_agrees=false on a difference) "
+                  "invariant and the correspondence on a concrete history (baseFrame_alias_breaks, aliasInitial_fails).  "
+                  "PROVED (k1) — the FULL step and history refinement of the mechanism model, relation Ref = Sim + Inv (model A) "
+                  "+ FInv (no aliasing, map mentions only existing classes/objects, slots ↦ objects in range): classWrite_refines "
+                  "(every write method through a class view: _base_frame materialising a copy of initial_set / {} in closed "
+                  "form writeBase_eq, Sim_setBase, clear_refines for the order _base_frame → keys() → tombstones), "
+                  "classOp_refines, instOp_refines = instRead_refines + instWrite_refines (attached instances: local first, "
+                  "the class lookup pulled only as far as needed — iread_cutF —, writes into local incl. the clear() quirk "
+                  "KF-C17-a common to both models; detached: plain dict), the creating commands (Ref_addClass, Ref_usingProps, "
+                  "Ref_usingShared: a new SLOT for the SAME object = model A's fresh descriptor as long as the case's init "
+                  "annotation is the object's initial_set cell, Ref_addInst), frames_step_refines (one command: same result, "
+                  "Ref again; hypotheses CmdOK, miGuard, sharedInit — NOT badClear), frames_run_refines(_init) over histories "
+                  "under refGuard; corollaries lazy_is_unobservable (read-only calls through any view inserted anywhere change "
+                  "no other result, both final mechanism states refine the same model-A state), frames_histories_partial / "
+                  "frames_results_partial (under histGuard + sharedHist every view[k] / every method result of the MECHANISM "
+                  "model equals the layered reference: composition with c17_histories_partial / c17_results_partial); "
+                  "non-vacuity: frameHist (18 commands: owner frame materialised by a write, a sibling handed the same "
+                  "Properties object, instance reads before/after, with_properties, detached instance), quirkHist, markedHist.  "
+                  "Still assumed, not proved: lazy_is_unobservable takes the guard of BOTH histories (that inserted reads "
+                  "leave refGuard unchanged is not proved); MI classes mixing descriptors are outside (miGuard), as for model "
+                  "A.  The runner still executes the mechanism model next to model A on every case (spec_agrees) "
                   "and its materialised-frame set after every command is compared with the keys of the real Properties.map")
     technique = "Lean 4 model + invariants + refinement to a layered-store specification; differential testing against /repo"
     trusted_base = [
